@@ -212,8 +212,23 @@ Fixpoint kf_scan (c : conn) (evs : list val) : bool :=
     | None => false
     end
   end.
+(* ---------- known finding 2: a stream's WINDOW_UPDATE waits behind that stream's flow-blocked response DATA,
+   while the server already counts the window as given ---------- *)
+Definition pending_wu (c : conn) : bool :=
+  negb (muted c) &&
+  existsb (fun s => existsb (fun t : Z * Z * bool => let '(k, _, _) := t in k =? 9) (outq s)) (strs c).
+Fixpoint kf_scan2 (c : conn) (evs : list val) : bool :=
+  match evs with
+  | [] => false
+  | ev :: r =>
+    match step c ev with
+    | Some (c', _, _) => pending_wu c' || kf_scan2 c' r
+    | None => false
+    end
+  end.
 Definition kf_C40 (i : val) : Z :=
   match i with
-  | VL [VZ maxs; VL evs] => if kf_scan (init_conn maxs) evs then 1 else 0
+  | VL [VZ maxs; VL evs] =>
+    if kf_scan (init_conn maxs) evs then 1 else if kf_scan2 (init_conn maxs) evs then 2 else 0
   | _ => 0
   end.
